@@ -517,7 +517,7 @@ def finish(prop_id, sel, results, tier, seed, level, trusted, assumptions, expla
             uw = [p["id"] for p in r["props"] if p["status"] == "FAILURE" and "unwind" in p["id"]]
             undecided.append({"group": r["group"], "reason": "%d properties with status UNKNOWN/ERROR (solver out of memory, or failed unwinding assertion: %s)" % (n_unknown, ", ".join(uw[:4]) or "none listed")})
             continue
-        if (n_can == 0 or not canary_ok) and not [p for p in fails if ".unwind" not in p["id"]]:
+        if (n_can == 0 or not canary_ok) and not [p for p in fails if ".unwind" not in p["id"] or getattr(g, "unwind_is_spec", False)]:
             # (a failed obligation is itself a reachability witness: it is classified below even if a canary did not fail)
             undecided.append({"group": r["group"], "reason": "vacuity canary %s" % ("missing" if n_can == 0 else "did not fail: harness end unreachable")})
             continue
